@@ -132,6 +132,10 @@ func CellStores(addr ssa.Value) ([]*ssa.Store, bool) { return cellStores(addr, 0
 // Origin follows conversions, tuple extraction of single-origin phis and loads of single-store
 // cells (the form go/ssa gives to locals captured by closures).
 func Origin(v ssa.Value) ssa.Value {
+	return origin(v, map[ssa.Value]bool{})
+}
+
+func origin(v ssa.Value, seen map[ssa.Value]bool) ssa.Value {
 	for i := 0; i < 64; i++ {
 		v = Strip(v)
 		switch x := v.(type) {
@@ -144,10 +148,14 @@ func Origin(v ssa.Value) ssa.Value {
 			}
 			return v
 		case *ssa.Phi:
+			if seen[x] {
+				return v
+			}
+			seen[x] = true
 			var o ssa.Value
 			same := true
 			for _, e := range x.Edges {
-				eo := Origin(e)
+				eo := origin(e, seen)
 				if eo == x {
 					continue
 				}
